@@ -37,8 +37,12 @@ func replay(cw *caseWriter, path string) {
 			c19exec(cw, strings.TrimRight(tag, "cb"), in)
 		case 1:
 			c01clExec(cw, tag, in)
+		case 102:
+			in2, obs, leaders := c101Run(in, true)
+			c102monitor(cw, tag, in2, obs)
+			cw.emit(tag, 102, in2, obs, leaders >= 1)
 		case 101:
-			in2, obs, leaders := c101Run(in)
+			in2, obs, leaders := c101Run(in, false)
 			c101monitor(cw, tag, in2, obs)
 			cw.emit(tag, 101, in2, obs, leaders >= 1)
 		case 5:
@@ -91,6 +95,10 @@ func replay(cw *caseWriter, path string) {
 func main() {
 	if len(os.Args) >= 2 && os.Args[1] == "c15child" {
 		c15child(os.Args[2:])
+		return
+	}
+	if len(os.Args) >= 2 && os.Args[1] == "c102batch" {
+		c102Batch()
 		return
 	}
 	if len(os.Args) >= 2 && os.Args[1] == "c101batch" {
@@ -148,6 +156,8 @@ func main() {
 		runC16(cw, tier, seed)
 	case "c15":
 		runC15(cw, tier, seed)
+	case "c102":
+		runC102(cw, tier, seed, 0)
 	case "c101":
 		runC101(cw, tier, seed)
 	case "c01cl":
